@@ -294,8 +294,8 @@ pub proof fn lemma_ext_trans(a: Seq<SessionFrame>, b: Seq<SessionFrame>, c: Seq<
 //@@ fn file=fe2o3-amqp/src/session/engine.rs name=send_outgoing_item
 //@@ param outgoing : &mut ChanSender<SessionFrame>
 //@@ param conn_stop : &OnceCell<ConnectionStopReason>
-//@@ subst `|_v0|` => `|_v0: ChanSendError|` rule=R5
-//@@ subst `|_v1|` => `|_v1: ChanSendError|` rule=R5
+//@@ subst `|_v0|` => `|_v0: ChanSendError|` rule=optional-R5
+//@@ subst `|_v1|` => `|_v1: ChanSendError|` rule=optional-R5
 //@@ spec
     ensures
         r is Ok ==> final(outgoing).sent@ =~= old(outgoing).sent@ + item_frames(Some(outgoing_item)),   // [C01.engine.forward-in-order] every frame of the item is put on the connection, in order, none dropped or duplicated [C07.engine.forward-in-order]
@@ -345,8 +345,8 @@ impl SessionEngine {
 //@@ subst `result?;` => `match result { Ok(v) => v, Err(e) => return Err(state_err_into(e)) };` rule=optional-R24
 //@@ subst `&self.outgoing` => `&mut self.outgoing` rule=R9
 //@@ subst `SessionStopReason::from(reason.clone())` => `stop_reason_from_conn(reason.clone())` rule=R16
-//@@ subst `|_v0|` => `|_v0: ChanSendError|` rule=R5
-//@@ subst `|_v1|` => `|_v1: ChanSendError|` rule=R5
+//@@ subst `|_v0|` => `|_v0: ChanSendError|` rule=optional-R5
+//@@ subst `|_v1|` => `|_v1: ChanSendError|` rule=optional-R5
 //@@ spec
     requires
         forall|i: int| 0 <= i < old(self).outgoing_link_frames.queue@.len() ==> !((#[trigger] old(self).outgoing_link_frames.queue@[i]) is Acquisition),
@@ -412,8 +412,8 @@ impl SessionEngine {
 //@@ qmark
 //@@ orsplit
 //@@ subst `&self.outgoing` => `&mut self.outgoing` rule=R9
-//@@ subst `|_v0|` => `|_v0: SessionStateError|` rule=R5
-//@@ subst `|_v1|` => `|_v1: SessionStateError|` rule=R5
+//@@ subst `|_v0|` => `|_v0: SessionStateError|` rule=optional-R5
+//@@ subst `|_v1|` => `|_v1: SessionStateError|` rule=optional-R5
 //@@ spec
     requires
         forall|i: int| 0 <= i < old(self).outgoing_link_frames.queue@.len() ==> !((#[trigger] old(self).outgoing_link_frames.queue@[i]) is Acquisition),
